@@ -47,6 +47,15 @@ VALID = [
     'require ["variables"];\nset "a" "b";\n',
     '/* bracket */ if size :under 1M { keep; } # trailing\n',
     'require ["vacation", "vacation-seconds"];\nvacation :seconds 60 "r";\n',
+    # pairs: a script that requires/declares something, and (in INVALID) one that uses it without
+    'require ["comparator-i;ascii-numeric"];\nif header :comparator "i;ascii-casemap" :is "X" "1" { keep; }\n',
+    'require ["comparator-i;ascii-numeric", "relational"];\nif header :comparator "i;ascii-numeric" :value "gt" "X" "1" { keep; }\n',
+    'require ["fileinto"];\n# caf\u00e9 \u65e5\u672c \U0001d518 comment\nif header :is "Subject" "caf\u00e9 \u65e5\u672c" {\n    fileinto "D\u00e9j\u00e0 \U0001d518";\n}\n# trailing comment after the last command\n',
+    'require ["copy"];\nredirect :copy "a@b.c";\n',
+    'require ["mailbox", "fileinto"];\nfileinto :create "New";\n',
+    'require ["imap4flags"];\nsetflag "\\\\Seen";\nkeep :flags "\\\\Flagged";\n',
+    'require ["body"];\nif body :content "text" :contains "x" { discard; }\n',
+    'require ["date"];\nif date :zone "+0100" :is "received" "year" "2020" { keep; }\n',
 ]
 INVALID = [
     'if header :contains "Subject" "x" { fileinto "F"; }\n',          # extension not loaded
@@ -63,6 +72,16 @@ INVALID = [
     'if anyof (true, ) { keep; }\n',                                  # misplaced comma
     '"string first";\n',                                              # no command
     'if header :comparator "i;bogus" :is "a" "b" { keep; }\n',        # bad comparator
+    'if header :comparator "i;ascii-numeric" :is "X" "1" { keep; }\n',  # comparator never declared
+    'redirect :copy "a@b.c";\n',                                      # :copy without require
+    'require "fileinto";\nfileinto :create "New";\n',                # :create without mailbox
+    'keep :flags "\\\\Flagged";\n',                                # :flags without imap4flags
+    'if header :count "ge" "Received" "5" { discard; }\n',            # relational not required
+    'if body :raw :contains "x" { keep; }\n',                         # body not required
+    'if currentdate :zone "+0100" :is "date" "2020-01-01" { keep; }\n',  # date not required
+    'require "vacation";\nvacation :seconds 60 "r";\n',              # vacation-seconds not required
+    b'# caf\xe9 latin-1 comment\nkeep;\n',                          # not UTF-8
+    b'keep;\nkeep;\nkeep;\nif header :is "a" "\xff\xfe" { keep; }\n',  # not UTF-8, late in the script
 ]
 
 EDITOR_DEFS = [
@@ -243,7 +262,9 @@ def draw_script(wl, label, classes):
     raw = base.encode("utf-8")
     cut = 1 + wl.int(label + ".cut", max(1, len(raw) - 1))
     classes.add("truncated")
-    return raw[:cut].decode("utf-8", "ignore")
+    # bytes, not text: a cut inside a multi-byte character makes the script invalid UTF-8, which is one more way
+    # for a parse to end badly
+    return raw[:cut]
 
 
 def run(ch, config, res):
@@ -350,7 +371,7 @@ def _short(x, n=400):
 
 
 def jobs(tier, seed, scale=1.0):
-    n = int((5000 if tier == "quick" else 300000) * scale)
+    n = int((3000 if tier == "quick" else 300000) * scale)
     B = 25
     return [{"kind": "random", "i": i, "n": min(B, n - i)} for i in range(0, n, B)]
 
